@@ -283,6 +283,11 @@ def check_crossval_call(ctx, plan, ent, refs, tabs, routine):
                 return
         for j, ref in enumerate(refs):
             mine = [e for e in fits if e['data'] is tr[0] and e['model'] == ref.name]
+            if not mine:
+                # tolerate memoisation on *content*: a fit on data equal to this fold's training set (same values,
+                # same RDMs and conditions, same pattern indices) is a fit on this fold's training set
+                fp = _train_fp(tr)
+                mine = [e for e in ent['all_fits'] if e['model'] == ref.name and _train_fp((e['data'], e['pattern_idx'])) == fp][:1]
             if len(mine) != 1:
                 others = [e for e in fits if e['model'] == ref.name and id(e) not in used]
                 ctx.violation('eval_ref.fit_input', f'{routine}:crossval:fit-not-on-training-set',
@@ -322,13 +327,20 @@ def check_crossval_call(ctx, plan, ent, refs, tabs, routine):
                       f'{routine}: a fitter was handed data that is not the training set of any fold of this crossval')
 
 
+def _train_fp(tr):
+    d = tr[0]
+    return (np.asarray(d.dissimilarities).tobytes(), tuple(uid_seqs(d)[0]), tuple(uid_seqs(d)[1]), tuple(normlist(tr[1])))
+
+
 def _nest(log):
     """attach to every entry the list of entries logged while it ran (by position)"""
+    all_fits = [e for e in log if e['fn'] == 'fitter' and 'theta' in e]
     for e in log:
         if 'end' in e:
             e['inner'] = log[e['pos'] + 1:e['end']]
         else:
             e['inner'] = []
+        e['all_fits'] = all_fits
 
 
 def _distinct(idx):
